@@ -4,7 +4,7 @@
 set -e
 cd "$(dirname "$0")/.."
 cd lean
-lake build PysparklingVerif Driver driver
+lake build PysparklingVerif driver
 cd ..
 /venv/bin/python -m compileall -q harness >/dev/null 2>&1 || true
 echo setup-ok
